@@ -344,13 +344,23 @@ func genConc(t *rapid.T) ConcCase {
 		n := rapid.IntRange(1, 7).Draw(t, "n")
 		var ops []ConcOp
 		for j := 0; j < n; j++ {
-			op := ConcOp{Kind: rapid.SampledFrom([]string{"get", "get", "set", "set", "setbad", "update"}).Draw(t, "kind")}
+			op := ConcOp{Kind: rapid.SampledFrom([]string{"get", "get", "set", "set", "setbad", "update", "sets", "updates"}).Draw(t, "kind")}
 			switch op.Kind {
 			case "set", "update":
 				next++
 				op.Value = next // distinct values make the history informative
 			case "setbad":
 				op.Value = -int32(rapid.IntRange(1, 1000).Draw(t, "neg"))
+			case "sets", "updates":
+				// a burst of writes back to back (each one its own operation in the
+				// history): remote writes and service-side updates overlap many times
+				k := rapid.SampledFrom([]int{5, 15, 30}).Draw(t, "burst")
+				kind := op.Kind[:len(op.Kind)-1]
+				for b := 0; b < k; b++ {
+					next++
+					ops = append(ops, ConcOp{Kind: kind, Value: next})
+				}
+				continue
 			}
 			ops = append(ops, op)
 		}
